@@ -93,6 +93,11 @@ def configs(tier):
     # delay(interval): the same forwarding coroutine over an unbounded queue, pacing its emissions
     for cons in ("future", "sync"):
         cfgs.append({"kind": "delay", "interval": 2, "cons": [cons], "max_elems": 4 if tier == "quick" else 5, "idle_wait": True})
+    # the library's own sink behind the buffer, around a function that hands back a bare awaitable (an object with __await__)
+    cfgs.append({"kind": "buffer", "n": 2, "cons": ["sinkfn_handle"], "max_elems": 4 if tier == "quick" else 5})
+    # the interval as a pandas-style string (fractional / compound: convert_interval)
+    for iv in ("2.0s", "0.05min"):
+        cfgs.append({"kind": "delay", "interval": iv, "cons": ["future"], "max_elems": 3, "idle_wait": True})
     # callbacks one at a time: emissions and consumer completions fall between two callbacks of one loop iteration
     cfgs.append({"kind": "buffer", "n": 1, "cons": ["future"], "max_elems": 4 if tier == "quick" else 5, "fine": True})
     # a caller that does not wait for what emit / update hands back
@@ -105,7 +110,7 @@ def configs(tier):
 
 def consts_of(cfg):
     return dict(NE=cfg["max_elems"], N=cfg.get("n", 0), SyncCons=cfg["cons"][0] == "sync",
-                Interval=int(cfg.get("interval", 0)), MaxOut=cfg["max_elems"], MaxTime=100000 if cfg.get("interval") else 0, Faults=bool(cfg.get("faults")))
+                Interval=amod.seconds(cfg.get("interval", 0)), MaxOut=cfg["max_elems"], MaxTime=100000 if cfg.get("interval") else 0, Faults=bool(cfg.get("faults")))
 
 
 def run(tier, seed, mutant=None, only_validate=False):
